@@ -72,8 +72,8 @@ def node_published(ctx):
     ctx.cov["published_or_stored_vaas_judged"] = npub
     for h in rows:
         for line in h.get("mon") or []:
-            if line.startswith("C01: locally assembled VAA") and "valid quorum" in line:
-                ctx.problem("monitor", "a VAA the node considered complete and published would be rejected on chain (both contracts ask for at least floor(2n/3)+1 signature records "
+            if (line.startswith("C01: locally assembled VAA") and "valid quorum" in line) or line.startswith("C01: inbound VAA stored although it does not verify"):
+                ctx.problem("monitor", "a VAA the node considered complete (published, or stored and served as a signed VAA) would be rejected on chain (both contracts ask for at least floor(2n/3)+1 signature records "
                             "with strictly ascending guardian indices, each recovering the key at its index): " + line,
                             "observed on the real handlers, history %s (%s)" % (h["id"], h.get("shape")), concrete=True,
                             replay={"history": h["id"], "shape": h.get("shape"), "ops": h["ops"], "monitor": line}, key="node-published:not-acceptable")
